@@ -83,6 +83,9 @@ Definition run_C05_full (cmd : Z) (ints : list Z) (arrs : list (list Q)) : optio
   match cmd with
   | 30%Z => Some (state_out05 K R L (explicit_terms_full g c grav orog (state05 ints arrs)))
   | 31%Z => Some (state_out05 K R L (implicit_terms_full g c (state05 ints arrs)))
+  (* MoistPrimitiveEquations.explicit_terms: arrs[7] = [radius; angular_velocity; g; R; kappa; R_vapor; Cp_vapor]; tracer 0 = specific_humidity *)
+  | 32%Z => let m := mkMoist (scalar arrs 7 5) (scalar arrs 7 6) in
+            Some (state_out05 K R L (explicit_terms_full_moist g false c m grav orog (state05 ints arrs)))
   | _ => None
   end.
 
